@@ -540,6 +540,7 @@ def case_multi_include(tag, variant, rng=None):
 
 class C18(Prop):
     id = "C18"
+    no_shrink = True   # cases are reported exactly as generated (lines depend on each other)
     title = "Runtime errors are reported at the right file and line with a correct trace"
     lean_modules = ["NV.C18.Props", "NV.C18.Witness", "NV.C18.SourceTexts"]
     theorems = ["NV.C18.line_roundtrip_raw", "NV.C18.line_roundtrip", "NV.C18.long_statement_ok",
